@@ -477,5 +477,8 @@ def eval_reuse(case, ctx):
 def stages(tier):
     q = tier == "quick"
     return [Stage("objects", "hyp", eval_object, n=24000 if q else 800000, strategy=assignments),
+            # the same generator and oracle driven by libFuzzer (atheris) with coverage feedback from /repo/src
+            Stage("fuzz_objects", "hypfuzz", eval_object, n=6000 if q else 400000, strategy=assignments,
+                  shards=4 if q else 16),
             Stage("streams", "func", eval_stream_replay, n=400 if q else 20000, run=run_machine),
             Stage("reuse", "hyp", eval_reuse, n=48 if q else 600, strategy=reuse_scenarios)]
